@@ -20,7 +20,7 @@ RULE = ("server streams as in C15 (redefinition, partial updates, kind mismatche
         "state chains are checked for continuity and against the final view. In every third stream the application assigns pending (unsubmitted) values to known elements between messages. Every fourth stream ends with a callback that re-enters the "
         "client (has another message for the same property processed while an event is being dispatched), every fourth with a "
         "setBLOBVector that can only be applied in part (second element with a wrong size); for those tails only the chain oracle "
-        "applies. non-trivial = a stream with >= 5 events and >= 3 "
+        "applies. A second scenario (400 / 20000 cases) uses two real drivers on a Router: the snooping client of one follows two or three properties of the other, each named in a snoop_device call of its own (sometimes the whole device too, sometimes other snoops in between); after every change on the device the client must hold the device's value, the callback registered for the device must have seen an event iff the value changed, old/new values chaining. non-trivial = a stream with >= 5 events and >= 3 "
         "callbacks that were invoked; distinct = hash(stream, callback configuration)")
 ASSUMPTIONS = ["no order among the events of one message is demanded", "for BLOB values only 'changed => event' is demanded",
                "a callback registered while an event is being dispatched may or may not receive that event"]
